@@ -231,9 +231,13 @@ def run_replay_check(pid: str, tier: str, seed: int) -> int:
     if plan.get("drivers"):
         nprog, nsteps, profile = plan["drivers"][tier]
         dfiles = tracecheck.run_drivers(seed, nprog, nsteps, procs=12, outdir=os.path.join(trace_dir, "drv"), profile=profile)
+        gkind = {"fock": "cut", "kraus": "kraus"}[profile]
+        thin = {"quick": {"cut": 4, "kraus": 2}, "thorough": {"cut": 1, "kraus": 1}}[tier][gkind]
+        dfiles += tracecheck.run_grid(gkind, seed, thin, procs=14, outdir=os.path.join(trace_dir, "drv"))
         dfail, dstats = tracecheck.validate(dfiles)
         drv_lines = dstats["lines"]
-        gen_desc.append(f"{nprog} continuous-parameter programs x {nsteps} steps (profile {profile}): {drv_lines} recorded calls judged by TLC")
+        gen_desc.append(f"{nprog} continuous-parameter programs x {nsteps} steps (profile {profile}) and the scenario grid "
+                        f"'{gkind}' (every {thin}. scenario): {drv_lines} recorded calls judged by TLC")
         for v in dfail:
             if pid not in v["props"]:
                 continue
